@@ -290,3 +290,48 @@ package dispatch
 //@   at call Route).Key assert [of-this-route-key] arg0 == r
 //@   opaque Route).ID Route).Key store.NewAlerts marker.NewAlertMarker aggrGroup).GroupKey notify.WithAggrGroupID
 //@   noeffect Route).ID Route).Key store.NewAlerts marker.NewAlertMarker aggrGroup).GroupKey notify.WithAggrGroupID context.WithCancel uuid.NewRandom UUID).String Logger).With time.NewTimer
+
+// C06: what GET /alerts/groups is answered from. Every group listed holds at least one alert, and every alert listed
+// in it passed the caller's alert filter at the one instant read for the whole answer - so a group none of whose
+// alerts is current (shown) is not listed at all. The filter's verdict is named shownAlert(alert, instant): within one
+// call it is taken to be a function of the two (sequential execution). The final sorts permute the listed groups and
+// the alerts inside each; the statements are about all of them, so they hold for every order.
+//@ uf shownAlert(*alert.Alert, time.Time) bool
+//@ spec groupsNonEmpty(gs AlertGroups) bool = forall k int :: 0 <= k && k < len(gs) ==> gs[k] != nil && len(gs[k].Alerts) > 0
+//@ spec groupsOnlyShown(gs AlertGroups, now time.Time) bool = forall k int, j int :: 0 <= k && k < len(gs) && 0 <= j && j < len(gs[k].Alerts) ==> shownAlert(gs[k].Alerts[j], now)
+//@ spec groupsOwnLists(gs AlertGroups) bool = forall k1 int, k2 int :: 0 <= k1 && k1 < len(gs) && 0 <= k2 && k2 < len(gs) && gs[k1] != gs[k2] ==> base(gs[k1].Alerts) != base(gs[k2].Alerts)
+//@ func (*Dispatcher).Groups
+//@   props C06
+//@   nosafe
+//@   requires d != nil && routeFilter != nil && alertFilter != nil
+//@   after call dynamic:param:alertFilter assume res0 == shownAlert(arg0, arg1)
+//@   at call dynamic:param:alertFilter assert [one-instant-for-the-whole-answer] arg1 == first("time.Now")
+//@   at call Map).Range assert [groups-of-accepted-routes-only] called("dynamic:param:routeFilter") && ret("dynamic:param:routeFilter")
+//@   ensures [every-route-is-put-to-the-route-filter] called("time.Now") ==> count("dynamic:param:routeFilter") == len(d.routeGroupsSlice) && count("Map).Range") == counttrue0("dynamic:param:routeFilter")
+//@   ensures [no-empty-group-and-only-shown-alerts] result2 == nil ==> groupsNonEmpty(result0) && groupsOnlyShown(result0, first("time.Now"))
+//@   loop 1 invariant rangeindex < len(d.routeGroupsSlice) && count("dynamic:param:routeFilter") == rangeindex + 1 && count("Map).Range") == counttrue0("dynamic:param:routeFilter")
+//@   loop 1 earlyexit [every-route-is-looked-at] false
+//@   loop 2 earlyexit [every-group-of-the-route-is-looked-at] false
+//@   loop 3 earlyexit [every-alert-of-the-group-is-looked-at] false
+//@   loop 1 invariant called("time.Now") && now == first("time.Now") && fresh(groups) && groupsNonEmpty(groups) && groupsOnlyShown(groups, now) && groupsOwnLists(groups)
+//@   loop 2 invariant called("time.Now") && now == first("time.Now") && fresh(groups) && groupsNonEmpty(groups) && groupsOnlyShown(groups, now) && groupsOwnLists(groups)
+//@   loop 3 invariant called("time.Now") && now == first("time.Now") && fresh(groups) && groupsNonEmpty(groups) && groupsOnlyShown(groups, now) && groupsOwnLists(groups) && fresh(filteredAlerts)
+//@   loop 3 invariant forall k int :: 0 <= k && k < len(groups) ==> base(groups[k].Alerts) != base(filteredAlerts)
+//@   loop 3 invariant forall j int :: 0 <= j && j < len(filteredAlerts) ==> shownAlert(filteredAlerts[j], now)
+//@   loop 3 invariant rangeindex < len(alerts) && (forall j int :: 0 <= j && j <= rangeindex && shownAlert(alerts[j], now) ==> alerts[j] in elems(filteredAlerts))
+//@   loop 4 invariant called("time.Now") && now == first("time.Now") && fresh(groups) && groupsNonEmpty(groups) && groupsOnlyShown(groups, now) && groupsOwnLists(groups) && fresh(alertGroup) && alertGroup.Alerts == filteredAlerts && len(filteredAlerts) > 0
+//@   loop 4 invariant forall k int :: 0 <= k && k < len(groups) ==> groups[k] != alertGroup && base(groups[k].Alerts) != base(filteredAlerts)
+//@   loop 4 invariant forall j int :: 0 <= j && j < len(filteredAlerts) ==> shownAlert(filteredAlerts[j], now)
+//@   loop 4 invariant [every-shown-alert-of-the-group-is-listed] forall j int :: 0 <= j && j < len(alerts) && shownAlert(alerts[j], now) ==> alerts[j] in elems(filteredAlerts)
+//@   loop 4 invariant [listed-as-the-group-it-is] alertGroup.Labels == ag.labels && alertGroup.RouteID == ag.routeID && alertGroup.Receiver == receiver && alertGroup.GroupKey == ret("aggrGroup).GroupKey") && alertGroup.AlertStatuses != nil
+//@   loop 5 invariant called("time.Now") && now == first("time.Now") && groupsNonEmpty(groups) && groupsOnlyShown(groups, now) && groupsOwnLists(groups)
+//@   loop 6 invariant called("time.Now") && now == first("time.Now") && groupsNonEmpty(groups) && groupsOnlyShown(groups, now) && groupsOwnLists(groups)
+//@   noeffect dynamic:param:routeFilter dynamic:param:alertFilter aggrGroup).RouteLabels aggrGroup).GroupKey Marker).Status Alerts).List Alert).Fingerprint LoadingDone
+
+// the function literal that copies a route's live groups out of the concurrent map: it takes every entry and never
+// stops the walk early.
+//@ func (*Dispatcher).Groups$1
+//@   props C06
+//@   nosafe
+//@   ensures [takes-every-group-and-keeps-walking] result && len(deref(snapshot)) == old(len(deref(snapshot))) + 1 && deref(snapshot)[len(deref(snapshot)) - 1] == unbox(el, *aggrGroup)
+//@   ensures [earlier-entries-kept] forall k int :: 0 <= k && k < old(len(deref(snapshot))) ==> deref(snapshot)[k] == old(deref(snapshot)[k])
